@@ -481,11 +481,21 @@ impl Compiler {
             } => {
                 // If this expression is a combination of a constant & a variable, create an optimized instruction for it that skips the stack
                 match (&**left, &**right) {
-                    (Expr::Identifier(name), Expr::Int { value })
-                    | (Expr::Int { value }, Expr::Identifier(name)) => {
+                    (Expr::Identifier(name), Expr::Int { value }) => {
                         let res = self.compile_const_var_infix_expression(name, *value, operator);
                         if res.is_ok() {
                             return res;
+                        }
+                    }
+                    (Expr::Int { value }, Expr::Identifier(name)) => {
+                        // The optimized instructions take the variable as their left operand,
+                        // so the constant can only be on the left if the operator can be mirrored
+                        if let Some(mirrored) = mirror_operator(operator) {
+                            let res =
+                                self.compile_const_var_infix_expression(name, *value, &mirrored);
+                            if res.is_ok() {
+                                return res;
+                            }
                         }
                     }
                     _ => (),
@@ -678,6 +688,22 @@ impl Compiler {
         let idx = self.constants.len();
         self.constants.push(obj);
         idx.try_into().unwrap()
+    }
+}
+
+/// Returns the operator that yields the same result when its operands are swapped, if there is one.
+/// (a + b == b + a, a < b == b > a, but there is no such operator for a - b)
+fn mirror_operator(operator: &Operator) -> Option<Operator> {
+    match operator {
+        Operator::Add => Some(Operator::Add),
+        Operator::Multiply => Some(Operator::Multiply),
+        Operator::Eq => Some(Operator::Eq),
+        Operator::Neq => Some(Operator::Neq),
+        Operator::Lt => Some(Operator::Gt),
+        Operator::Lte => Some(Operator::Gte),
+        Operator::Gt => Some(Operator::Lt),
+        Operator::Gte => Some(Operator::Lte),
+        _ => None,
     }
 }
 
